@@ -77,3 +77,6 @@ func VerifNewResponseWriter(w *bufio.Writer, lock *sync.Mutex, connID, requestID
 
 // VerifUnbindRoute reports whether an unbind route is registered.
 func (m *Mux) VerifHasUnbindRoute() bool { return m.unbindRoute != nil }
+
+// VerifValidateAddrPort is validateAddrPort.
+func VerifValidateAddrPort(addrPort string) (string, error) { return validateAddrPort(addrPort) }
